@@ -171,7 +171,7 @@ def run(chk):
                         cm = {"S": 0, "T": 1, "P": 2}[a[7][k]]
                         rcases.append("tsres %x %x %x" % (cm, recs[k * nvars + v]["cstep"], period)); rmeta.append((c, k, ct))
                     impl_rec.append(rec)
-                mcases.append("tsm %x %x %s" % (ty, n, "/".join(toks))); mmeta.append((c, v, impl_rec, mine[-1][4]))
+                mcases.append("tsm %x %x %s %d" % (ty, n, "/".join(toks), 1 if "protectValueRange=YES" in c.split(" ")[1] else 0)); mmeta.append((c, v, impl_rec, mine[-1][4]))
     mo = lib.run_cases(model, mcases, timeout=3000)
     ncmp = 0
     for (c, v, impl_rec, eh), m in zip(mmeta, mo):
